@@ -43,6 +43,7 @@ var Roots = []Root{
 	{"map[string]int", t[map[string]int]()}, {"map[int]string", t[map[int]string]()}, {"map[float64]string", t[map[float64]string]()}, {"map[rune]bool", t[map[rune]bool]()}, {"map[vt.MyStr]vt.Leaf", t[map[vt.MyStr]vt.Leaf]()},
 	{"map[string]*vt.Leaf", t[map[string]*vt.Leaf]()}, {"map[vu.MyID]vt.MyInt", t[map[vu.MyID]vt.MyInt]()}, {"map[string][]string", t[map[string][]string]()}, {"map[string]map[string]int", t[map[string]map[string]int]()},
 	{"vt.K8s", t[vt.K8s]()}, {"*vt.K8s", t[*vt.K8s]()}, {"[]vt.K8s", t[[]vt.K8s]()},
+	{"vt.Stamped", t[vt.Stamped]()}, {"[]vt.Stamped", t[[]vt.Stamped]()}, {"map[string]vt.Stamped", t[map[string]vt.Stamped]()},
 	{"vt.Emb", t[vt.Emb]()}, {"*vt.Emb", t[*vt.Emb]()}, {"[]vt.Emb", t[[]vt.Emb]()}, {"vt.IDs", t[vt.IDs]()}, {"vt.Dict", t[vt.Dict]()}, {"vt.Grid", t[vt.Grid]()}, {"vt.Named", t[vt.Named]()}, {"map[string]vt.IDs", t[map[string]vt.IDs]()},
 	{"map[bool]vt.Empty", t[map[bool]vt.Empty]()}, {"map[uint8]vu.Pt", t[map[uint8]vu.Pt]()}, {"map[string]vt.Deep2", t[map[string]vt.Deep2]()}, {"map[[2]int]string", t[map[[2]int]string]()}, {"map[vt.MyRune]string", t[map[vt.MyRune]string]()},
 }
@@ -251,6 +252,14 @@ func fill(r *rand.Rand, v reflect.Value, depth int) {
 	case reflect.Struct:
 		if t == reflect.TypeFor[bytes.Buffer]() {
 			return // only the zero Buffer is in the domain (exported fields only)
+		}
+		if t == reflect.TypeFor[time.Time]() {
+			// opaque (no exported fields): outside the domain as a value, but it may sit non-zero in a field of a
+			// struct that is in the domain - the dumper leaves it out, the comparison ignores it
+			if r.Intn(3) != 0 {
+				v.Set(reflect.ValueOf(time.Unix(int64(r.Intn(1000000)), 0).UTC()))
+			}
+			return
 		}
 		for i := 0; i < t.NumField(); i++ {
 			f := t.Field(i)
